@@ -35,7 +35,10 @@ impl Tier {
     }
 }
 
+pub const MAX_VIOLATION_KEYS: usize = 4000;
+
 pub struct Report {
+    pub violation_counts: std::collections::BTreeMap<String, usize>,
     pub id: String,
     pub tier: Tier,
     pub level: &'static str,
@@ -61,6 +64,7 @@ pub struct Report {
 impl Report {
     pub fn new(id: &str, tier: Tier, level: &'static str) -> Report {
         Report {
+            violation_counts: Default::default(),
             id: id.to_string(),
             tier,
             level,
@@ -95,8 +99,11 @@ impl Report {
     }
     pub fn violate(&mut self, key: &str, detail: String, case: Value) {
         // keep at most a handful per key (the first is the shortest: alphabets are simplest-first)
-        let n = self.violations.iter().filter(|v| v.key == key).count();
-        if n < 3 {
+        // and a bounded number of keys; everything is still counted in the outcomes
+        let known = self.violation_counts.len();
+        let n = self.violation_counts.entry(key.to_string()).or_insert(0);
+        *n += 1;
+        if *n <= 3 && (known < MAX_VIOLATION_KEYS || *n > 1) {
             self.violations.push(Violation {
                 key: key.to_string(),
                 detail,
@@ -121,8 +128,10 @@ impl Report {
             self.sample(s);
         }
         for v in o.violations {
-            let n = self.violations.iter().filter(|x| x.key == v.key).count();
-            if n < 3 {
+            let known = self.violation_counts.len();
+            let n = self.violation_counts.entry(v.key.clone()).or_insert(0);
+            *n += 1;
+            if *n <= 3 && (known < MAX_VIOLATION_KEYS || *n > 1) {
                 self.violations.push(v);
             }
         }
